@@ -10,12 +10,15 @@
 (*      result-tree fragments, xsl:sort, document(''), format-number + xsl:decimal-format;            *)
 (*      string used as a node-set (run-time type error) deep inside when $p = 'stop'                  *)
 (*   S4 calls the external function f (run-time error while it is not installed), top-level param     *)
+(*   S5 a top-level variable (lazily evaluated, reached through a second top-level variable) whose     *)
+(*      evaluation is aborted by xsl:message terminate="yes" when $p = 'stop'                          *)
+(*   S6 a top-level variable that uses $p as a node-set: run-time XPath error whenever p is set        *)
 (*   SE unknown output encoding (Xalan falls back to UTF-8)   SU character the encoding cannot        *)
 (*   represent (substituted)   SM document() of a missing file (warning, empty node-set)              *)
 (*   SX not well-formed   SV well-formed but not a valid stylesheet   DX not well-formed source       *)
 EXTENDS Integers
 
-PoolSS   == {"S1", "S2", "S3", "S4", "SE", "SU", "SM", "SX", "SV"}
+PoolSS   == {"S1", "S2", "S3", "S4", "S5", "S6", "SE", "SU", "SM", "SX", "SV"}
 PoolSrc  == {"D1", "D2", "DX"}
 PoolPNames == {"p"}
 PoolPVals  == {"str", "num", "obj"}    \* 'stop' as an expression string; 2 as a double; "obj" as an XObjectPtr
@@ -35,6 +38,8 @@ Class(ss, src, ps, fs) ==
   ELSE CASE ss = "S2" /\ ps["p"] = "str" -> "terminated"
          [] ss = "S3" /\ ps["p"] = "str" -> "xpathError"
          [] ss = "S4" /\ ~fs["f"]        -> "extError"
+         [] ss = "S5" /\ ps["p"] = "str" -> "terminated"
+         [] ss = "S6" /\ ps["p"] # "none" -> "xpathError"
          [] ss = "SE"                    -> "encoding"
          [] ss = "SU"                    -> "unserializable"
          [] ss = "SM"                    -> "missingDoc"
